@@ -43,7 +43,7 @@ ASSUMPTIONS = ['a point is "outside" when it is at least 1e-9*max(span,|g|) beyo
                'make_interp_spline default not-a-knot conditions',
                'any exception counts as "an error is raised" for out-of-bounds points',
                'tables whose derived tolerance exceeds 1e-6*max|v| are discarded as ill-conditioned']
-MIN_JUDGED = {'quick': 350, 'thorough': 3000}
+MIN_JUDGED = {'quick': 350, 'thorough': 5000}
 SHARD_TIMEOUT = {'quick': 600, 'thorough': 2400}
 
 GENERAL = ['slinear', 'lagrange2', 'lagrange3', 'cubic', 'akima',
@@ -84,18 +84,23 @@ def _axis_class(grids, x, on_boundary_only):
     return 'none'
 
 
-def _raise_key(driver, method, e, cls, grids, x):
-    """Mechanism key for an exception on an in-bounds point.
+def _exc_key(driver, method, e, context, cls=None, grids=None, x=None, axis=None):
+    """Mechanism key for an exception on a legal call.
 
-    Raised by the bounds test itself -> the input class is (point class, class of the grid axis the point
-    sits on); raised by a method's evaluation code -> the input class is the method."""
+    Raised by the bounds test itself -> 'bounds:in-bounds-raises:<Exc>@<where>:axis=<class of the grid axis the
+    point sits on>:pt=<point class>:driver=<driver>';
+    raised by evaluation code -> '<driver>:<method>:raises:<Exc>@<where>:<context>', except for the one-point call
+    after a batched call on a fixed table, which is one mechanism for all fixed tables:
+    'fixed:single-after-batched-raises:<Exc>@<where>:<method>'."""
     w = _where(e)
-    pre = '' if driver == 'interp' else driver + ':'
-    if w.endswith(':_interpolate') or w.endswith(':bracket'):
-        on_b = cls in ('on-boundary', 'boundary')
-        return '%sbounds:in-bounds-raises:%s@%s:pt=%s:axis=%s' % (pre, type(e).__name__, w, cls,
-                                                                 _axis_class(grids, x, on_b))
-    return '%s%s:evaluate-raises:%s@%s' % (pre, method, type(e).__name__, w)
+    n = type(e).__name__
+    if context == 'in-bounds' and (w.endswith(':_interpolate') or w.endswith(':bracket')):
+        if axis is None:
+            axis = _axis_class(grids, x, cls in ('on-boundary', 'boundary'))
+        return 'bounds:in-bounds-raises:%s@%s:axis=%s:pt=%s:driver=%s' % (n, w, axis, cls, driver)
+    if context == 'single-after-batched' and method in R.FIXED_DIM:
+        return 'fixed:single-after-batched-raises:%s@%s:%s' % (n, w, method)
+    return '%s:%s:raises:%s@%s:%s' % (driver, method, n, w, context)
 
 
 def build(case):
@@ -203,7 +208,7 @@ def judge_interp(case, acc):
             it_g = InterpND(method=R.GENERAL_OF[method], points=tuple(grids), values=tab_rand.copy(),
                             extrapolate=ex)
     except Exception as e:  # a legal table must be accepted
-        rep.viol('%s:construct-raises:%s@%s' % (method, type(e).__name__, _where(e)), str(e)[:200])
+        rep.viol(_exc_key('interp', method, e, 'construct'), str(e)[:200])
         return
     acc.count('cell:interp:' + method)
     for g in grids:
@@ -223,7 +228,7 @@ def judge_interp(case, acc):
                 vr = float(np.asarray(it_r.interpolate(x.copy())).ravel()[0])
                 vp = float(np.asarray(it_p.interpolate(x.copy())).ravel()[0])
             except Exception as e:
-                rep.viol(_raise_key('interp', method, e, cls, grids, x),
+                rep.viol(_exc_key('interp', method, e, 'in-bounds', cls, grids, x),
                          '%s x=%s grid ends=%s: %s: %s' % (method, x.tolist(),
                                                          [(float(g[0]), float(g[-1])) for g in grids],
                                                          type(e).__name__, str(e)[:120]))
@@ -267,7 +272,7 @@ def judge_interp(case, acc):
                 raised = e
             if ex:
                 if raised is not None:
-                    rep.viol('extrapolate:raises:%s@%s' % (type(raised).__name__, _where(raised)),
+                    rep.viol(_exc_key('interp', method, raised, 'extrapolated'),
                              '%s x=%s: %s' % (method, x.tolist(), str(raised)[:120]))
                 else:
                     acc.count('obs:extrapolated-no-raise')
@@ -293,7 +298,7 @@ def judge_interp(case, acc):
                          % (cval, vc, x.tolist()))
                 break
     except Exception as e:
-        rep.viol('%s:constant-table-raises:%s@%s' % (method, type(e).__name__, _where(e)), str(e)[:160])
+        rep.viol(_exc_key('interp', method, e, 'constant-table'), str(e)[:160])
     ks = sorted(single_r)
     if len(ks) >= 2:
         X = np.array([pts[k][0] for k in ks])
@@ -301,7 +306,7 @@ def judge_interp(case, acc):
             br = np.asarray(it_r.interpolate(X.copy())).ravel()
             bp = np.asarray(it_p.interpolate(X.copy())).ravel()
         except Exception as e:
-            rep.viol('%s:batched-call-raises:%s@%s' % (method, type(e).__name__, _where(e)), str(e)[:200])
+            rep.viol(_exc_key('interp', method, e, 'batched'), str(e)[:200])
             br = None
         if br is not None:
             if br.shape != (len(ks),):
@@ -332,7 +337,7 @@ def judge_interp(case, acc):
                 rep.viol('%s:single-after-batched' % method, 'before the batched call %r, after it %r'
                          % (single_r[k], again))
         except Exception as e:
-            rep.viol('%s:single-after-batched-raises:%s@%s' % (method, type(e).__name__, _where(e)), str(e)[:160])
+            rep.viol(_exc_key('interp', method, e, 'single-after-batched'), str(e)[:160])
     if not rep.bad:
         if judged_any:
             acc.ok(_fp(case), sample=case if case['seed'] % 97 == 0 else None)
@@ -388,7 +393,7 @@ def judge_comp(case, acc):
         prob.model.add_subsystem('c', c)
         prob.setup()
     except Exception as e:
-        rep.viol('%s:%s:setup-raises:%s@%s' % (driver, method, type(e).__name__, _where(e)), str(e)[:200])
+        rep.viol(_exc_key(driver, method, e, 'setup'), str(e)[:200])
         return
     acc.count('cell:%s:%s' % (driver, method))
     safe = [k for k, p in enumerate(pts) if p[1] in ('node', 'interior', 'just-inside')]
@@ -422,11 +427,7 @@ def judge_comp(case, acc):
                 a = _axis_class(grids, pts[k][0], True)
                 if a != 'none' and (worst == 'none' or a == 'end-neg'):
                     worst = a
-            w = _where(e)
-            if w.endswith(':_interpolate') or w.endswith(':bracket'):
-                key = '%s:bounds:in-bounds-raises:%s@%s:pt=%s:axis=%s' % (driver, type(e).__name__, w, kind, worst)
-            else:
-                key = '%s:%s:evaluate-raises:%s@%s' % (driver, method, type(e).__name__, w)
+            key = _exc_key(driver, method, e, 'in-bounds', cls=kind, axis=worst)
             rep.viol(key, '%s points %s: %s' % (method, X.tolist()[:3], str(e)[:160]))
             continue
         judged_any = True
@@ -478,7 +479,7 @@ def judge_comp(case, acc):
                 rep.viol('%s:%s:constant-table' % (driver, method),
                          'constant table %r interpolated as %s' % (cval, vk.tolist()))
         except Exception as e:
-            rep.viol('%s:%s:constant-table-raises:%s@%s' % (driver, method, type(e).__name__, _where(e)),
+            rep.viol(_exc_key(driver, method, e, 'constant-table'),
                      'constant table, points %s: %s' % (X.tolist()[:2] if 'X' in dir() else None, str(e)[:160]))
         try:
             p2.cleanup()
@@ -497,7 +498,7 @@ def judge_comp(case, acc):
                 raised = e
             if ex:
                 if raised is not None:
-                    rep.viol('%s:extrapolate:raises:%s@%s' % (driver, type(raised).__name__, _where(raised)),
+                    rep.viol(_exc_key(driver, method, raised, 'extrapolated'),
                              '%s x=%s: %s' % (method, pts[k][0].tolist(), str(raised)[:120]))
             else:
                 if raised is None:
@@ -529,7 +530,7 @@ def judge(case, acc):
 def _cases(tier, seed):
     """Deterministic list of table descriptions."""
     rng = np.random.default_rng(1000003 * seed + (17 if tier == 'quick' else 29))
-    reps = {'quick': {'interp': 22, 'mmsc': 4, 'semi': 4}, 'thorough': {'interp': 160, 'mmsc': 30, 'semi': 30}}[tier]
+    reps = {'quick': {'interp': 22, 'mmsc': 4, 'semi': 4}, 'thorough': {'interp': 300, 'mmsc': 50, 'semi': 50}}[tier]
     out = []
     sid = 0
 
@@ -548,6 +549,20 @@ def _cases(tier, seed):
                     'extrapolate': bool(rng.random() < 0.4) if ex is None else ex,
                     'max_ratio': float(rng.choice([1.0001, 3.0, 10.0, 50.0])),
                     'seed': int(seed * 10000019 + sid * 7919 + (0 if tier == 'quick' else 5000000))})
+
+    # directed cases: input classes that must be visited in every run (structure fixed, values random)
+    def directed(driver, method, npts, kinds, ex):
+        add(driver, method, len(npts), ex=ex)
+        out[-1]['npts'] = list(npts)
+        out[-1]['kinds'] = list(kinds)
+
+    directed('interp', 'slinear', [5], ['neg'], False)
+    directed('interp', 'lagrange3', [5, 4], ['end-zero', 'neg'], False)
+    directed('interp', '1D-akima', [4], ['pos'], True)
+    directed('interp', 'akima', [4, 4], ['straddle', 'pos'], True)
+    directed('mmsc', 'cubic', [5, 5], ['neg', 'pos'], False)
+    directed('semi', 'akima', [4, 5], ['pos', 'straddle'], True)
+    directed('semi', 'slinear', [4, 4], ['pos', 'neg'], False)
 
     for driver in ('interp', 'mmsc', 'semi'):
         for _ in range(reps[driver]):
